@@ -390,6 +390,11 @@ def relabel (s : DHG) (labelAttr : String) : DHG × Outcome :=
 def isolates (s : DHG) : List PyId :=
   s.nodes.filter (fun n => (s.membIn n).isEmpty && (s.membOut n).isEmpty)
 
+/-- `if not isolates: _DH.remove_nodes_from(_DH.nodes.isolates())`; `if relabel: convert_labels_to_integers(_DH, in_place=True)` -/
+def cleanupBody (r0 : DHG × Outcome) (isolatesOk relabelF : Bool) : DHG × Outcome :=
+  let r1 := andThen r0 (fun t => if isolatesOk then (t, .ok) else guardF t (removeNodesFrom t (isolates t) false true))
+  andThen r1 (fun t => if relabelF then relabel t "label" else (t, .ok))
+
 /-- `cleanup(isolates, relabel, in_place)`.  With `in_place=False` the work is done on `self.copy()` and
     that copy is returned: the history continues on the returned network (this is how the harness uses
     it); if anything raises, the caller keeps the original. -/
@@ -397,8 +402,7 @@ def cleanup (s : DHG) (isolatesOk relabelF inPlace : Bool) : Option (DHG × Outc
   let r0 : Option (DHG × Outcome) := if inPlace then some (s, .ok) else copy s
   r0.map fun r0 =>
     if r0.2.isErr then r0 else
-    let r1 := andThen r0 (fun t => if isolatesOk then (t, .ok) else guardF t (removeNodesFrom t (isolates t) false true))
-    let r2 := andThen r1 (fun t => if relabelF then relabel t "label" else (t, .ok))
+    let r2 := cleanupBody r0 isolatesOk relabelF
     if !inPlace && r2.2.isErr then (s, r2.2) else r2
 
 /-! ### the op alphabet -/
